@@ -148,6 +148,38 @@ theorem ok_sends_are_handled_whenever_the_mailbox_is_quiet (progs : List (List O
       · exact ih hi (fun r hr => h r (List.mem_cons_of_mem _ hr))
   simp [quietViolations, this]
 
+/-- (round 4, cluster builds) **An accepted serialized message the actor cannot decode** (dropped
+with `Ok(())` inside `handle_message`, `actor.rs`) **never reaches the user's `handle`, and costs no
+other message anything:** for every set `u` of undecodable ids, what reaches `handle` — `userHandled u
+handled` — contains no id of `u`, contains every other id exactly as often as `handled` does (so at
+most once, and every Ok send of a decodable message that was handled still is), and keeps the
+relative order of the others. (Decision: `send_serialized` carries bytes, not a message of the
+actor's type; C02's "handled exactly once" is owed to `send_message/cast/call`. Not a finding.) -/
+theorem undecodable_message_is_dropped_alone (progs : List (List Op)) (sched : List Tid) (u : List Nat) :
+    let h := (run (init progs) sched).sh.handled
+    (∀ i ∈ u, i ∉ userHandled u h) ∧
+    (∀ i, i ∉ u → (userHandled u h).count i = h.count i) ∧
+    (∀ i, (userHandled u h).count i ≤ 1) ∧
+    (∀ m₁ m₂ a b c, m₁ ∉ u → m₂ ∉ u → h = a ++ m₁ :: b ++ m₂ :: c →
+      userHandled u h = userHandled u a ++ m₁ :: userHandled u b ++ m₂ :: userHandled u c) := by
+  intro h
+  refine ⟨?_, ?_, ?_, ?_⟩
+  · intro i hi hm
+    simp only [userHandled, List.mem_filter, List.contains_eq_mem, Bool.not_eq_true',
+      decide_eq_false_iff_not] at hm
+    exact hm.2 hi
+  · intro i hi
+    simp only [userHandled, List.count_filter, List.contains_eq_mem, hi, decide_false, Bool.not_false]
+  · intro i
+    have h1 : h.count i ≤ 1 := handled_at_most_once progs sched i
+    have : (userHandled u h).count i ≤ h.count i := by
+      simp only [userHandled]
+      exact List.Sublist.count_le _ List.filter_sublist
+    omega
+  · intro m₁ m₂ a b c h1 h2 he
+    simp only [userHandled, he, List.filter_append, List.filter_cons, List.contains_eq_mem, h1, h2,
+      decide_false, Bool.not_false, if_true, List.append_assoc]
+
 /-- (b) The receiver handles messages in enqueue order: the handled sequence is a prefix of the
 sequence of messages in enqueue order (as long as nothing was flushed, i.e. while it is alive). -/
 theorem handled_in_enqueue_order (progs : List (List Op)) (sched : List Tid) :
@@ -476,6 +508,7 @@ end C02
 #print axioms C02.accepted_message_fate
 #print axioms C02.dequeued_then_dropped_only_by_other_exit
 #print axioms C02.ok_sends_are_handled_whenever_the_mailbox_is_quiet
+#print axioms C02.undecodable_message_is_dropped_alone
 #print axioms C02.handled_in_enqueue_order
 #print axioms C02.real_time_order
 #print axioms C02.real_time_order_handled
